@@ -55,6 +55,42 @@ type c17seq struct {
 	closed  bool
 	noClose bool
 	capNow  int
+	tstats  string // buckets/grow/shrink of the hash table, as of the last call before Close
+	kmap    []uint64 // key index -> key (nil = identity); skewed sequences map every index into one bucket
+}
+
+func (q *c17seq) keyOf(i int) uint64 {
+	if q.kmap == nil {
+		return uint64(i)
+	}
+	return q.kmap[i]
+}
+
+// c17murmur is murmur32 of leveldb/cache/cache.go (unexported there), used only to pick keys that collide in the
+// low bits so that the overflow-driven growth of the table (mOverflowThreshold / mOverflowGrowThreshold) happens.
+func c17murmur(ns, key uint64, seed uint32) uint32 {
+	const m = uint32(0x5bd1e995)
+	mix := func(k uint32) uint32 { k *= m; k ^= k >> 24; k *= m; return k }
+	h := seed
+	for _, k := range []uint32{uint32(ns >> 32), uint32(ns), uint32(key >> 32), uint32(key)} {
+		h *= m
+		h ^= mix(k)
+	}
+	h ^= h >> 13
+	h *= m
+	h ^= h >> 15
+	return h
+}
+
+// c17SkewKeys returns n keys of namespace 0 whose hash has the given low `bits` bits equal to `want`.
+func c17SkewKeys(n int, bits uint, want uint32, start uint64) []uint64 {
+	var ks []uint64
+	for k := start; len(ks) < n; k++ {
+		if c17murmur(0, k, 0xf00)&((1<<bits)-1) == want {
+			ks = append(ks, k)
+		}
+	}
+	return ks
 }
 
 // stats must be read before Close: GetStats dereferences the table head, which Close sets to nil.
@@ -72,6 +108,13 @@ func (q *c17seq) tail(ctor bool) string {
 		cflag = 1
 	}
 	s := fmt.Sprintf(" c%d f[%s] d[%s] n%d s%d", cflag, intsStr(q.rec.fin), intsStr(q.rec.del), q.cc.Nodes(), q.cc.Size())
+	// the hash table itself, answered on the Lean side by Model/CacheTable.lean (GetStats dereferences the table
+	// head, which Close sets to nil: after Close the table is not touched any more and the last reading stands)
+	if !q.closed {
+		st := q.cc.GetStats()
+		q.tstats = fmt.Sprintf("%d/%d/%d", st.Buckets, st.GrowCount, st.ShrinkCount)
+	}
+	s += fmt.Sprintf(" t%d/%s", q.cc.Nodes(), q.tstats)
 	return s
 }
 
@@ -93,7 +136,7 @@ func (q *c17seq) emit(op, res string) {
 }
 
 func (q *c17seq) step(r *rng.R, nkeys, nns int) {
-	key := func() (uint64, uint64) { return uint64(r.Intn(nns)), uint64(r.Intn(nkeys)) }
+	key := func() (uint64, uint64) { return uint64(r.Intn(nns)), q.keyOf(r.Intn(nkeys)) }
 	x := r.Intn(1000)
 	switch {
 	case x < 420:
@@ -215,9 +258,13 @@ func (q *c17seq) step(r *rng.R, nkeys, nns int) {
 }
 
 // c17Sequence runs one random op sequence on a fresh cache.
-func c17Sequence(c *Ctx, r *rng.R, nops, nkeys, nns, capacity int, big bool) {
+func c17Sequence(c *Ctx, r *rng.R, nops, nkeys, nns, capacity int, big bool, kmap ...[]uint64) {
 	q := &c17seq{c: c, delRuns: map[int]int{}, flags: map[string]bool{}, capNow: capacity, noClose: big}
+	if len(kmap) > 0 {
+		q.kmap = kmap[0]
+	}
 	q.cc = cache.NewCache(cache.NewLRU(capacity))
+	q.tstats = fmt.Sprintf("%d/0/0", q.cc.GetStats().Buckets)
 	c.Lean(fmt.Sprintf("cache new %d", capacity), "ok")
 	q.ops = append(q.ops, fmt.Sprintf("new %d", capacity))
 	c.Guard("cache:sequential", map[string]interface{}{"ops": q.ops}, func() {
@@ -229,7 +276,7 @@ func c17Sequence(c *Ctx, r *rng.R, nops, nkeys, nns, capacity int, big bool) {
 			if big {
 				// fill past the grow threshold of the hash table, then (below) drain to shrink it
 				for i := 0; i < nkeys; i++ {
-					ns, k := uint64(i%nns), uint64(i)
+					ns, k := uint64(i%nns), q.keyOf(i)
 					sf := "v1"
 					h := q.cc.Get(ns, k, func() (int, cache.Value) {
 						q.rec.ctor = true
@@ -274,6 +321,7 @@ func c17Sequence(c *Ctx, r *rng.R, nops, nkeys, nns, capacity int, big bool) {
 		if !q.closed {
 			q.stats()
 			q.cc.Close(false)
+			q.closed = true
 			q.emit("close 0", "ok")
 		}
 	})
@@ -297,7 +345,7 @@ func c17Sequence(c *Ctx, r *rng.R, nops, nkeys, nns, capacity int, big bool) {
 }
 
 func runC17(c *Ctx) {
-	c.Res.Rule = "(a) random op sequences on cache.NewCache(cache.NewLRU(cap)) — Get with/without setFunc (nil-value setFuncs, charges 0/1..3/cap/cap+1), Handle.Release (also repeated), Handle.Value, Delete with/without delFunc, Evict, EvictNS, EvictAll, SetCapacity, Close(force)/Close(weak) — every call's observable outcome (handle/value identity, setFunc ran, finalisers run, delFuncs run, Nodes(), Size()) compared line by line with Model/Cache.lean; small dense key spaces plus sequences over hundreds of keys that grow and shrink the hash table; non-trivial = a Get evicted and finalised another value and some Get was a hit; (b) concurrent stress, see c17conc.go"
+	c.Res.Rule = "(a) random op sequences on cache.NewCache(cache.NewLRU(cap)) — Get with/without setFunc (nil-value setFuncs, charges 0/1..3/cap/cap+1), Handle.Release (also repeated), Handle.Value, Delete with/without delFunc, Evict, EvictNS, EvictAll, SetCapacity, Close(force)/Close(weak) — every call's observable outcome (handle/value identity, setFunc ran, finalisers run, delFuncs run, Nodes(), Size()) compared line by line with Model/Cache.lean; small dense key spaces plus sequences over hundreds of keys that grow and shrink the hash table, and skewed key sets (all keys in one bucket) that grow it through the overflow counter; every line is also answered by the hash-table model Model/CacheTable.lean (Nodes, bucket count, grow and shrink counts); non-trivial = a Get evicted and finalised another value and some Get was a hit; (b) concurrent stress, see c17conc.go"
 	r := c.R
 	nseq := c.Scale(400, 4000)
 	for i := 0; i < nseq && c.TimeLeft(); i++ {
@@ -311,6 +359,17 @@ func runC17(c *Ctx) {
 		rr := r.Fork()
 		nkeys := 560 + rr.Intn(300)
 		c17Sequence(c, rr, 150, nkeys, 1+rr.Intn(3), nkeys+rr.Intn(50), true)
+	}
+	// skewed key sets: every key of the sequence hashes into the same bucket of the 16-bucket table (and, for
+	// half of them, of the 32-bucket table too), so the table grows through the overflow counter long before
+	// the node-count threshold, and shrinks again when the sequence drains it
+	nskew := c.Scale(6, 40)
+	for i := 0; i < nskew && c.TimeLeft(); i++ {
+		rr := r.Fork()
+		nkeys := 170 + rr.Intn(260)
+		bits := uint(4 + rr.Intn(3))
+		ks := c17SkewKeys(nkeys, bits, uint32(rr.Intn(1<<bits)), uint64(rr.Intn(1000)))
+		c17Sequence(c, rr, 150, nkeys, 1, nkeys+rr.Intn(50), true, ks)
 	}
 	c17Concurrent(c)
 }
